@@ -18,6 +18,9 @@ import (
 // (a parameter, a spec constant) by the object the expression resolves to, and the conditions a call stands under by
 // the comparisons that hold on the way to it in every frame of its chain. Nothing is matched by spelling.
 
+// inlMaxDepth: how many frames deep helpers are read in place.
+var inlMaxDepth = 3
+
 type inlEnv struct {
 	info    *types.Info
 	body    *ast.BlockStmt
@@ -107,7 +110,7 @@ func walkInlined2(p *Prog, pk *packages.Package, env *inlEnv, depth int, active 
 		if f := calleeFunc(info, call); f != nil {
 			*seq++
 			visit(inlSite{call, env, f, *seq})
-			if depth < 3 && f.Pkg() == pk.Types {
+			if depth < inlMaxDepth && f.Pkg() == pk.Types {
 				if hd := declOfFunc(pk, f); hd != nil && hd.Body != nil {
 					sub := map[types.Object]ast.Expr{}
 					i := 0
@@ -129,13 +132,46 @@ func walkInlined2(p *Prog, pk *packages.Package, env *inlEnv, depth int, active 
 			}
 			return true
 		}
+		// a method value handed in as an argument and called through the parameter: getter := x.M; … getter()
+		if id, ok := ast.Unparen(call.Fun).(*ast.Ident); ok && depth < inlMaxDepth {
+			if _, isParam := env.subst[info.Uses[id]]; isParam {
+				x, fr := env.resolve(id)
+				if sel, ok := x.(*ast.SelectorExpr); ok {
+					if sn := fr.info.Selections[sel]; sn != nil && sn.Kind() == types.MethodVal {
+						if f, ok := sn.Obj().(*types.Func); ok {
+							*seq++
+							visit(inlSite{call, env, f, *seq})
+							if f.Pkg() == pk.Types {
+								if hd := declOfFunc(pk, f); hd != nil && hd.Body != nil {
+									sub := map[types.Object]ast.Expr{}
+									i := 0
+									for _, fl := range hd.Type.Params.List {
+										for _, nm := range fl.Names {
+											if i < len(call.Args) {
+												sub[info.Defs[nm]] = call.Args[i]
+											}
+											i++
+										}
+									}
+									if hd.Recv != nil && len(hd.Recv.List) == 1 && len(hd.Recv.List[0].Names) == 1 {
+										sub[info.Defs[hd.Recv.List[0].Names[0]]] = sel.X
+									}
+									walkInlined2(p, pk, newInlEnv(info, hd.Body, env, call, sub, nil), depth+1, active, seq, enter, visit)
+								}
+							}
+							return true
+						}
+					}
+				}
+			}
+		}
 		// a function literal called where it is written
-		if lit, ok := ast.Unparen(call.Fun).(*ast.FuncLit); ok && depth < 3 {
+		if lit, ok := ast.Unparen(call.Fun).(*ast.FuncLit); ok && depth < inlMaxDepth {
 			walkInlined2(p, pk, newInlEnv(info, lit.Body, env, call, map[types.Object]ast.Expr{}, env), depth+1, active, seq, enter, visit)
 			return false
 		}
 		// a local closure
-		if id, ok := ast.Unparen(call.Fun).(*ast.Ident); ok && depth < 3 {
+		if id, ok := ast.Unparen(call.Fun).(*ast.Ident); ok && depth < inlMaxDepth {
 			if d, ok := env.defs[info.Uses[id]]; ok && d.pos == 0 {
 				if lit, ok := ast.Unparen(d.rhs).(*ast.FuncLit); ok {
 					sub := map[types.Object]ast.Expr{}
